@@ -3,6 +3,8 @@ use crate::Property;
 
 pub mod c02;
 pub mod c03;
+pub mod c04;
+pub mod c05;
 pub mod c06;
 pub mod c07;
 pub mod c09;
@@ -14,12 +16,15 @@ pub mod c15;
 pub mod c16;
 pub mod c19;
 pub mod c20;
+pub mod sess;
 pub mod typed;
 
 pub fn lookup(id: &str) -> Option<Box<dyn Property>> {
     Some(match id {
         "C02" => Box::new(c02::C02),
         "C03" => Box::new(c03::C03),
+        "C04" => Box::new(c04::C04),
+        "C05" => Box::new(c05::C05),
         "C06" => Box::new(c06::C06),
         "C07" => Box::new(c07::C07),
         "C09" => Box::new(c09::C09),
